@@ -31,6 +31,7 @@ import (
 	"github.com/lightningnetwork/lnd/lnwallet/chainfee"
 	"github.com/lightningnetwork/lnd/lnwire"
 	"github.com/lightningnetwork/lnd/shachain"
+	"github.com/lightningnetwork/lnd/tlv"
 )
 
 // ---------------------------------------------------------------------------
@@ -189,6 +190,10 @@ type verifE1 struct {
 	unsigned [2][]lnwire.Message // updates sent by i since its last signature
 	lastSig  [2]*verifE1SigRec
 	lastRev  [2]*verifE1RevRec
+
+	// richAdds: some update_add_htlc carry a blinding point / custom
+	// records.
+	richAdds bool
 
 	// when set, every HTLC eventually gets resolved (C17 needs HTLC-free
 	// states with arbitrary msat balances).
@@ -782,6 +787,20 @@ func (e *verifE1) actAdd(from int) bool {
 		Expiry:      h.Expiry,
 		PaymentHash: h.Hash,
 		OnionBlob:   verifOnion,
+	}
+	// optional TLV payload of update_add_htlc: blinding point and custom
+	// records must survive the wire, the update log, the commit diff and
+	// the commitment codec (C02 compares them after reload).
+	if e.richAdds && r.Chance(1, 4) {
+		_, pub := btcec.PrivKeyFromBytes(r.Bytes(32))
+		msg.BlindingPoint = tlv.SomeRecordT(
+			tlv.NewPrimitiveRecord[lnwire.BlindingPointTlvType](pub),
+		)
+	}
+	if e.richAdds && r.Chance(1, 4) {
+		msg.CustomRecords = lnwire.CustomRecords{
+			uint64(lnwire.MinCustomRecordsTlvType + r.Intn(5)): r.Bytes(1 + r.Intn(40)),
+		}
 	}
 	var openKey *models.CircuitKey
 	if r.Bool() {
@@ -1379,6 +1398,15 @@ func (e *verifE1) drain(resolve bool, after func(label string)) bool {
 
 // ---------------------------------------------------------------------------
 // random schedule step
+
+// burst adds up to n HTLCs in a row from one side (large commitments).
+func (e *verifE1) burst(from, n int) {
+	for k := 0; k < n && !e.ended; k++ {
+		if !e.actAdd(from) {
+			break
+		}
+	}
+}
 
 // step performs one PRNG-chosen enabled action; returns its label.
 func (e *verifE1) step(allowFee bool) string {
